@@ -113,6 +113,8 @@ type DTable struct {
 	// Inline: a function whose body is evaluated in place when it is called (a helper extracted from the
 	// analysed function is still part of it); nil inlines nothing.
 	Inline    func(f *types.Func) bool
+	// Fix: the scenario's truth value for an atom (by its name); ok=false splits the atom both ways.
+	Fix       func(name string) (val bool, ok bool)
 	noInline  map[*types.Func]bool // callees that turned out to lie outside the fragment
 	MaxLeaves int
 	MaxSteps  int
@@ -229,6 +231,12 @@ func (r *dtRun) atom(e ast.Expr, sym string) bool {
 		}
 	}
 	v, ok := r.assign[name]
+	if !ok && r.t.Fix != nil {
+		if fv, fixed := r.t.Fix(name); fixed {
+			r.assign[name] = fv
+			v, ok = fv, true
+		}
+	}
 	if !ok {
 		panic(dtNeed{name})
 	}
